@@ -35,7 +35,9 @@ type Case struct {
 	Backend  string `json:"backend"`
 	Naming   string `json:"naming"`
 	BasePath string `json:"base_path"`
-	Ops      []Op   `json:"ops"`
+	// Slash: the Go client is created with a base URL ending in '/' (as the integration suite does)
+	Slash bool `json:"client_url_trailing_slash,omitempty"`
+	Ops   []Op `json:"ops"`
 }
 
 // addresses whose mailbox names exercise URL-significant characters
@@ -85,6 +87,7 @@ var prop = hx.Prop[Case]{
 			Backend:  rapid.SampledFrom([]string{"mem", "file"}).Draw(t, "backend"),
 			Naming:   rapid.SampledFrom([]string{"local", "local", "full"}).Draw(t, "naming"),
 			BasePath: rapid.SampledFrom([]string{"", "", "/p", "/a/b"}).Draw(t, "basepath"),
+			Slash:    rapid.IntRange(0, 2).Draw(t, "slash") == 0,
 			Ops:      rapid.SliceOfN(opGen, 5, 40).Draw(t, "ops"),
 		}
 	},
@@ -123,7 +126,12 @@ func run(c Case) *hx.Outcome {
 	}
 	defer w.Close()
 	base := w.HTTP.URL + c.BasePath
-	cl, err := client.New(base)
+	clientBase := base
+	if c.Slash {
+		clientBase += "/"
+		o.Class("client base URL with a trailing slash")
+	}
+	cl, err := client.New(clientBase)
 	if err != nil {
 		o.Failf(pid+":harness", "client.New: %v", err)
 		return o
